@@ -370,14 +370,14 @@ pub fn run(case: &Case) -> Outcome {
         // promptness: nothing else delays it (no stall fault): the call is over by its
         // deadline plus granularity plus the time accounted to executed schedule points
         if !stalls {
-            let ceil_ms = d.div_ceil(1_000_000) * 1_000_000;
-            let bound = ceil_ms.max(1_000_000) + 1_000_000 + o.tick;
+            let ceil_ms = d.div_ceil(1_000_000).saturating_mul(1_000_000);
+            let bound = ceil_ms.max(1_000_000).saturating_add(1_000_000 + o.tick);
             if el > bound {
                 out.fail(&format!("late:{name}/{cx}:{dc}"), format!("waiter {} elapsed {el} ns, d {d} ns, bound {bound} ns (tick {})", o.actor, o.tick));
             }
         }
         if f_at != 0 {
-            let dl = o.vc + d;
+            let dl = o.vc.saturating_add(d);
             if f_at.abs_diff(dl) < 1_000_000 {
                 near_deadline = true;
             }
@@ -427,9 +427,13 @@ pub fn strategy(g: &GenCfg) -> BoxedStrategy<Case> {
             3 => Just((u64::MAX, false)),
             1 => Just((0u64, true)),
             2 => (0u64..=(2 * d.min(200_000_000)).max(1)).prop_map(|e| (e, false)),
-            3 => (0u64..8_000).prop_map(move |off| ((d + off).saturating_sub(3_000), false)),
+            3 => (0u64..8_000).prop_map(move |off| (d.saturating_add(off).saturating_sub(3_000), false)),
         ];
         e.prop_map(move |(e, before)| {
+            // a wait that cannot time out within the case needs its event (a sleep needs an end)
+            let huge = d >= 1u64 << 62;
+            let (e, before) = if huge { (e % 400_000, false) } else { (e, before) };
+            let kind = if huge && kind == K_SLEEP { K_SEM } else { kind };
             let (dl, dh) = split(d);
             let (el, eh) = split(e);
             let (sl, sh) = split(start.min(d));
@@ -442,7 +446,8 @@ pub fn strategy(g: &GenCfg) -> BoxedStrategy<Case> {
         .prop_map(|(mut actors, (workers, pool, feat), sched)| {
             // several timers of the same duration (one interval list of the timer thread)
             for i in 1..actors.len() {
-                if actors[i].role == 1 {
+                // (not the huge durations: those need their own event, see above)
+                if actors[i].role == 1 && actors[i - 1].ops[0].2 < (1 << 30) && actors[i].ops[0].2 < (1 << 30) {
                     let (a, b) = (actors[i - 1].ops[0].1, actors[i - 1].ops[0].2);
                     actors[i].ops[0].1 = a;
                     actors[i].ops[0].2 = b;
